@@ -12,6 +12,7 @@ accepts it (wf_sheet) the sheet must render to the very text, and the callbacks 
 (`events`, the right-hand side of css_scan_render) must equal both the generator's record and what
 emmet.css_matcher.scan reports.  The share of generated sheets inside the proved grammar is
 written into the evidence."""
+import collections
 import json
 import os
 
@@ -300,8 +301,10 @@ def call_sequences(ctx, docs):
                 pp = rng.randint(0, len(poison))
                 for f in ('match', 'outward', 'inward'):
                     U.IMPL[f](poison, pp)
+                    CALL_LOG.append((f, poison, pp))
                 hist.append([poison, pp])
             got = {f: U.IMPL[f](text, pos) for f in ('match', 'outward', 'inward')}
+            CALL_LOG.extend((f, text, pos) for f in ('match', 'outward', 'inward'))
             hist.append([text, pos])
             n += 1
             ctx.count_eval()
@@ -321,6 +324,256 @@ def call_sequences(ctx, docs):
         if bad_n >= 5:
             break
     ctx.cov['call_sequence_queries'] = n
+
+
+# ------------------------------------------------------------------ the answer belongs to the caller
+# match() hands out an object, balanced_outward()/balanced_inward() hand out lists.  The statement says what each
+# CALL returns; so it must hold for a call whatever the caller did with the answers of earlier calls (an editor's
+# "expand selection" command pops the ranges off the list, others shift the offsets, sort, clear or extend it), and an
+# answer the caller still holds must stay what the call returned whatever is asked -- or done to other answers --
+# afterwards.  Scripts of three kinds of steps, run on the RAW return values of emmet.css_matcher (the canonical
+# observers of css_util copy the ranges out and never touch the object):
+#   ask     call func(text, pos) (with the very string object or an equal string built separately), keep the raw answer
+#           in a slot, judge it against the record;
+#   use     the caller uses up / edits the answer in a slot in place (LIST_USES, OBJECT_USES);
+#   reread  judge an answer asked earlier and not used since against the record again.
+LIST_USES = ('pop-first', 'pop-last', 'clear', 'reverse', 'shift-offsets', 'append-own-range', 'insert-front',
+             'drop-until-larger', 'sort-widest-first', 'keep-one', 'extend-with-itself')
+OBJECT_USES = ('shift-offsets', 'change-type', 'drop-body', 'collapse-to-start')
+OWNED_FUNCS = {'match': 'match', 'outward': 'balanced_outward', 'inward': 'balanced_inward'}
+
+
+def _raw_call(f, text, pos):
+    import emmet.css_matcher as M
+    try:
+        return ('ok', getattr(M, OWNED_FUNCS[f])(text, pos))
+    except Exception as e:  # noqa: BLE001
+        return ('internal', U._kind(e))
+
+
+_raw_limited = common.limited(_raw_call)
+# the calls made in this process, most recent last (call_sequences and the scripts below): a failure inside a script may
+# be due to what an EARLIER call left behind in the library, so the replay carries the calls that preceded the script
+CALL_LOG = collections.deque(maxlen=120)
+
+
+def raw_call(f, text, pos):
+    CALL_LOG.append((f, text, pos))
+    return _raw_limited(f, text, pos)
+
+
+def canon(f, raw):
+    """canonical observable (module docstring of css_util) of a raw answer as it is NOW"""
+    if raw[0] != 'ok':
+        return raw
+    v = raw[1]
+    try:
+        if f == 'match':
+            if v is None:
+                return None
+            return (v.type == 'property', v.start, v.end, v.body_start, v.body_end) if v.type in ('property', 'selector') \
+                else ('badtype', v.type)
+        return ('ok', [(r[0], r[1]) for r in v])
+    except Exception as e:  # noqa: BLE001
+        return ('unreadable', type(e).__name__)
+
+
+def oracle_one(text, items, pos, f, got):
+    """the statement for ONE function at one position, against the generator's record; None when it holds"""
+    if f == 'match':
+        exp = U.expected_match(items, pos)
+        ok = got == exp
+    elif f == 'outward':
+        exp = ('ok', U.expected_outward(text, items, pos))
+        ok = got == exp
+    else:
+        exp = ('ok', U.expected_inward(text, items, pos))
+        ok = got == exp or got == ('ok', U.expected_inward(text, items, pos, value_body=True))
+    return None if ok else '%s(pos=%d) = %r, the record says %r' % (OWNED_FUNCS[f], pos, got, exp)
+
+
+def use_answer(v, how, k, pos):
+    """what a caller does with an answer it owns; True when the object was really edited"""
+    if isinstance(v, list):
+        before = list(v)
+        if how == 'pop-first' and v:
+            v.pop(0)
+        elif how == 'pop-last' and v:
+            v.pop()
+        elif how == 'clear':
+            v.clear()
+        elif how == 'reverse':
+            v.reverse()
+        elif how == 'shift-offsets':
+            for i, e in enumerate(v):
+                if isinstance(e, list):
+                    e[0] += k
+                    e[1] += k
+                    before = None
+                else:
+                    v[i] = (e[0] + k, e[1] + k)
+        elif how == 'append-own-range':
+            v.append((pos, pos + abs(k)))
+        elif how == 'insert-front':
+            v.insert(0, (pos, pos))
+        elif how == 'drop-until-larger':
+            while v:
+                r = v.pop(0)
+                if r[0] < pos < r[1] and r[1] - r[0] > abs(k):
+                    break
+        elif how == 'sort-widest-first':
+            v.sort(key=lambda r: (r[0] - r[1], r[0]))
+        elif how == 'keep-one' and v:
+            v[:] = v[len(v) // 2:len(v) // 2 + 1]
+        elif how == 'extend-with-itself':
+            v.extend(list(v))
+        return before is None or before != v
+    if v is None or isinstance(v, (tuple, str, int)):
+        return False
+    done = False
+    try:
+        if how == 'shift-offsets':
+            for a in ('start', 'end', 'body_start', 'body_end'):
+                if isinstance(getattr(v, a, None), int):
+                    setattr(v, a, getattr(v, a) + k)
+                    done = True
+        elif how == 'change-type':
+            v.type = 'selector' if v.type == 'property' else 'property'
+            done = True
+        elif how == 'drop-body':
+            v.body_start = v.body_end = None
+            done = True
+        elif how == 'collapse-to-start':
+            v.end = v.body_start = v.body_end = v.start
+            done = True
+    except (AttributeError, TypeError):
+        pass
+    return done
+
+
+def run_owned_script(text, items, steps, cover=None):
+    """Runs a script; first failing step as (index, func, pos, why, what kind of step) or None."""
+    slots = {}
+    for n, st in enumerate(steps):
+        if st['op'] == 'ask':
+            src = ''.join(list(text)) if st.get('copy') else text
+            raw = raw_call(st['func'], src, st['pos'])
+            slots[st['slot']] = {'func': st['func'], 'pos': st['pos'], 'raw': raw, 'used': False}
+            why = oracle_one(text, items, st['pos'], st['func'], canon(st['func'], raw))
+            if why:
+                return (n, st['func'], st['pos'], why, 'asked again' if st.get('again') else 'asked')
+        elif st['op'] == 'use':
+            sl = slots[st['slot']]
+            if sl['raw'][0] == 'ok' and use_answer(sl['raw'][1], st['how'], st['k'], sl['pos']):
+                sl['used'] = True
+                if cover:
+                    cover('owned:use:%s:%s' % (sl['func'], st['how']))
+        elif st['op'] == 'reread':
+            sl = slots[st['slot']]
+            if not sl['used']:
+                why = oracle_one(text, items, sl['pos'], sl['func'], canon(sl['func'], sl['raw']))
+                if why:
+                    return (n, sl['func'], sl['pos'], 'the answer the caller still holds now reads: ' + why, 'held')
+    return None
+
+
+def owned_script(rng, text, pos, f, cover):
+    """one script around the question f(text, pos)"""
+    steps = [{'op': 'ask', 'slot': 0, 'func': f, 'pos': pos, 'copy': False}]
+    nslot = [1]
+
+    def ask(func, p, again=False):
+        st = {'op': 'ask', 'slot': nslot[0], 'func': func, 'pos': p, 'copy': rng.random() < 0.5}
+        if again:
+            st['again'] = True
+            cover('owned:asked-again:%s' % ('equal-string-built-separately' if st['copy'] else 'same-string-object'))
+        nslot[0] += 1
+        steps.append(st)
+        return st['slot']
+
+    def others():
+        n = rng.choice((0, 0, 0, 1, 2, 5))
+        cover('owned:other-calls-in-between:%s' % (n if n < 2 else '2+'))
+        for _ in range(n):
+            ask(rng.choice(FUNCS), rng.randint(0, len(text)))
+
+    def use(slot):
+        steps.append({'op': 'use', 'slot': slot, 'how': rng.choice(OBJECT_USES if f == 'match' else LIST_USES),
+                      'k': rng.choice((1, -1, 2, 7, 100))})
+
+    if rng.random() < 0.65:
+        # ask, use the answer up, ask the same again (twice over: the second answer is used up as well)
+        cover('owned:script:use-then-ask-again')
+        cur = 0
+        for _ in range(2):
+            use(cur)
+            others()
+            cur = ask(f, pos, again=True)
+    else:
+        # ask, keep the answer; ask other things and the same again, use THAT answer up; the first one must still stand
+        cover('owned:script:hold-while-others-are-asked-and-used')
+        others()
+        second = ask(f, pos, again=True)
+        steps.append({'op': 'reread', 'slot': 0})
+        use(second)
+        steps.append({'op': 'reread', 'slot': 0})
+        ask(f, pos, again=True)
+    return steps
+
+
+def pack_calls(calls):
+    texts = []
+    for _, t, _ in calls:
+        if t not in texts:
+            texts.append(t)
+    return {'texts': texts, 'calls': [[f, texts.index(t), p] for f, t, p in calls]}
+
+
+def replay_owned(text, items, steps, calls_before):
+    """the script alone; when the property holds on it, the recorded earlier calls and then the script"""
+    bad = run_owned_script(text, items, steps)
+    if bad or not calls_before or not calls_before.get('calls'):
+        return bad, False
+    for f, ti, p in calls_before['calls']:
+        raw_call(f, calls_before['texts'][ti], p)
+    return run_owned_script(text, items, steps), True
+
+
+def caller_owned_answers(ctx, docs, per_sheet):
+    rng = ctx.rng
+    n = bad_n = 0
+    for text, items in docs:
+        ps = list(range(0, len(text) + 1))
+        rng.shuffle(ps)
+        for pos in ps[:per_sheet]:
+            for f in FUNCS:
+                steps = owned_script(rng, text, pos, f, ctx.cover)
+                before = list(CALL_LOG)
+                n += 1
+                ctx.count_eval()
+                ctx.cover('owned:scripts')
+                bad = run_owned_script(text, items, steps, ctx.cover)
+                if bad:
+                    bad_n += 1
+                    k, g, p, why, kind = bad
+                    ctx.property_failure(
+                        'c10:owned:%s:%s@%d' % (g, text, p),
+                        'css %s on %s, %s after the caller used/kept earlier answers (step %d of the script): %s' % (
+                            g, U.short(text), kind, k, why),
+                        {'component': 'css', 'check': 'c10-owned', 'text': text, 'items': items, 'pos': p, 'func': g,
+                         'why': why, 'steps': steps, 'failed_at_step': k, 'calls_before': pack_calls(before),
+                         'note': 'steps: ask = call func(text, pos) (copy: with an equal string built separately) and keep '
+                                 'the raw answer in the slot; use = the caller edits the answer of that slot in place; '
+                                 'reread = read the kept answer of that slot again; calls_before = the calls made in the '
+                                 'process before the script (the replay runs the script alone and, when that passes, '
+                                 'these calls and then the script)'})
+                    if bad_n >= 5:
+                        break
+            if bad_n >= 5:
+                break
+        if bad_n >= 5:
+            break
+    ctx.cov['caller_owned_answer_scripts'] = n
 
 
 def run(ctx):
@@ -347,7 +600,16 @@ def run(ctx):
         'syntax all of these are ordinary name characters and the record counts them as part of the word they stand '
         'in (U+00A0 and U+000C are not generated: the statement does not say which side they are on); every '
         'position -1..len+1; match, balanced_outward, balanced_inward compared with the generator\'s record (oracle) '
-        'and with the extracted model (correspondence). An evaluation is one (sheet, position); it is non-trivial '
+        'and with the extracted model (correspondence). Call sequences: positions of two sheets in shuffled order '
+        'with queries on half-typed sheets in between. Caller-owned answers (buckets owned:*, oracle only, the model '
+        'has no objects): on the shortest and on random sheets of both generators, for random positions and each of '
+        'the three functions, scripts on the RAW return values: ask, let the caller use the answer up in place '
+        '(lists: pop first/last, clear, reverse, shift offsets, append/insert a range of its own, drop until a larger '
+        'range, sort, keep one, extend; the match object: shift offsets, change type, drop body, collapse), ask the '
+        'same question again -- with the same string object or an equal string built separately, directly or after up to '
+        'five other calls -- twice over; or keep the first answer, ask other things and the same again, use that second '
+        'answer up, and read the first one again; every answer of every ask and every kept answer is judged against '
+        'the record. An evaluation is one (sheet, position) or one such script; it is non-trivial '
         'when the position lies strictly inside a declaration or rule; distinct by (text, position).')
     corpus = load_corpus('C10')
     docs = [(c['text'], c['items']) for c in corpus if not c.get('finding_key')]
@@ -390,6 +652,11 @@ def run(ctx):
                               'func': f, 'why': why})
     ctx.cov['oracle'] = {'sheets': len(docs), 'failing_sheets': len({i for _, i, _, _, _ in failures})}
     call_sequences(ctx, docs[n_corpus:n_corpus + (12 if quick else 120)])
+    # the answers belong to the caller: sheets of both generators, the shortest ones (small replays) and random ones
+    pool = sorted(docs[n_corpus:], key=lambda d: len(d[0]))
+    k_short, k_rand = (8, 16) if quick else (40, 160)
+    owned_docs = pool[:k_short] + ctx.rng.sample(pool[k_short:], min(k_rand, len(pool) - k_short))
+    caller_owned_answers(ctx, owned_docs, 24 if quick else 60)
     # known finding witnesses: the statement's last sentence for parenthesised expressions
     for c in corpus:
         key = c.get('finding_key')
@@ -439,6 +706,12 @@ def replay(ctx, obj):
             got = {f: U.IMPL[f](t, q) for f in ('match', 'outward', 'inward')}
         bad = U.c10_oracle(text, rp['items'], rp['pos'], got)
         print('after the recorded call history, position %d of %r: %s' % (rp['pos'], text, bad[0][1] if bad else 'property holds'))
+        return 1 if bad else 0
+    if rp.get('check') == 'c10-owned':
+        bad, with_history = replay_owned(text, rp['items'], rp['steps'], rp.get('calls_before'))
+        print('sheet %r, script of %d steps%s: %s' % (text, len(rp['steps']),
+                                                    ' after the recorded earlier calls' if with_history else '',
+                                                    'step %d (%s): %s' % (bad[0], bad[4], bad[3]) if bad else 'property holds at every step'))
         return 1 if bad else 0
     im = U.impl_doc(text, FUNCS)
     bad = oracle_doc(text, rp['items'], im)
